@@ -34,10 +34,11 @@ func clip(lines []string) []string {
 }
 
 func Run(c *lib.Ctx) {
-	c.Rule = "four families over random workflows (chain of 1–3 OneToOne nodes | OneToOne with out+error ports | OneToMany fan-out | ManyToOne join; in half of them out-ports get 1–2 further links, i.e. one out-port linked to 2–3 in-ports; 2/5 of the node actions are held back on harness gates) inside a real symbol.Table, 1–2 processes, schedules of source writes / releases of held actions / sink answers with 1–4 requests in flight per source and process (≤6 writes quick, ≤12 thorough; join workflows lock-step per source). frames: runtime.Agent attached through the table's load/unload hooks, Agent.Frames per port against Uniflow.Agent fed the harness's own packet-hook log and against the oracle (k-th request with k-th answer of the same port, also with several requests open on one port); 1/5 of the cases terminate process 0 in mid-flight (its frames are an observation only); non-trivial = ≥8 hook events, distinct by workflow+schedule. transparency: the same schedule run with and without the agent, every accepted-count / action entered / sink arrival / source response compared in order; non-trivial = ≥2 responses. open-exit: a process is terminated while its port is being opened (by an open hook running just before the agent's | at a verif yield point of Open | by a racing goroutine, 4–12 fresh processes), then ordinary requests of other processes, with/without agent, every agent call under a watchdog. breakpoints: real runtime.Debugger with (a) one breakpoint on a symbol's in-port, ≤3 packets (own process each) paused, every sequence over {packet, Pause, Step, RemoveBreakpoint, Debugger.Close, Breakpoint.Close} of length ≤2 (quick) / ≤4 (thorough) containing a remove/close plus random ones of length ≤7, and (b) 3–5 breakpoints in one debugger (one per symbol of 3–5 parallel chains), a packet paused on every one of them, then Pause/Step/extra packets, then Debugger.Close or RemoveBreakpoint in arbitrary order (some or all, optionally followed by Close), then one more packet per symbol (must pass: no leftover watcher); observations after every call (packets resumed, which calls returned with what) against the reachable states of the n-breakpoint Uniflow.Breakpoint under all schedules; non-trivial = ≥1 packet and ≥1 call"
+	c.Rule = "four families over random workflows (chain of 1–3 OneToOne nodes | OneToOne with out+error ports | OneToMany fan-out | ManyToOne join | diamond: the two outputs of a OneToMany node meeting again at one in-port (fan-in); in half of them out-ports get 1–2 further links, i.e. one out-port linked to 2–3 in-ports; 2/5 of the node actions are held back on harness gates) inside a real symbol.Table, 1–2 processes, schedules of source writes / releases of held actions / sink answers with 1–4 requests in flight per source and process (≤6 writes quick, ≤12 thorough; join workflows lock-step per source). frames: runtime.Agent attached through the table's load/unload hooks, Agent.Frames per port against Uniflow.Agent fed the harness's own packet-hook log and against the oracle (k-th request with k-th answer of the same port, also with several requests open on one port); 1/5 of the cases terminate process 0 in mid-flight (its frames are an observation only); non-trivial = ≥8 hook events, distinct by workflow+schedule. transparency: the same schedule run with and without the agent, every accepted-count / action entered / sink arrival / source response compared in order; non-trivial = ≥2 responses. open-exit: a process is terminated while its port is being opened (by an open hook running just before the agent's | at a verif yield point of Open | by a racing goroutine, 4–12 fresh processes), then ordinary requests of other processes, with/without agent, every agent call under a watchdog. breakpoints: real runtime.Debugger with (a) one breakpoint on a symbol's in-port, ≤3 packets (own process each) paused, every sequence over {packet, Pause, Step, RemoveBreakpoint, Debugger.Close, Breakpoint.Close} of length ≤2 (quick) / ≤4 (thorough) containing a remove/close plus random ones of length ≤7, and (b) 3–5 breakpoints in one debugger (one per symbol of 3–5 parallel chains), a packet paused on every one of them, then Pause/Step/extra packets, then Debugger.Close or RemoveBreakpoint in arbitrary order (some or all, optionally followed by Close), then one more packet per symbol (must pass: no leftover watcher); observations after every call (packets resumed, which calls returned with what) against the reachable states of the n-breakpoint Uniflow.Breakpoint under all schedules; non-trivial = ≥1 packet and ≥1 call"
 	c.Assumptions = []string{
 		"frames: packets, ports, symbols and processes are harness-assigned integers; the order of hook events fed to the model is the order in which the harness's own packet hooks (installed like the agent's, running just before them under the same endpoint lock) saw them; columns are compared per port (the order of frames of different ports in Agent.Frames depends on goroutine scheduling and is not compared), Agent.Frames is read only at quiescence",
 		"frames: the number of requests that passed a port comes from the harness's reference reading of the workflow (one per Write on an out-port whatever the number of its links, one per packet delivered to an in-port), not from the packet hooks: the oracle demands exactly one complete frame per request at quiescence, the model is fed one request and one answer event per request (a hook call beyond that is dropped and counted), and at the sources / sinks the answer of frame i must be the i-th response received / answer given, by identity",
+		"frames, fan-in: the requests of an in-port are the packets in the order its reader delivered them (read off the reader by identity at a sink; identified by the value the node then emits at an observed OneToOne node) and the k-th packet leaving through the port answers the k-th delivered one; a frame must pair a request with that answer whatever order the port's inbound hooks ran in; directed cases add a harness inbound hook after the agent's that parks the first of two racing writers for ≤150 ms (or yields the processor, 25–60 rounds)",
 		"frames: that the k-th answer on a port answers the k-th request on it is C01's contract (Reader.Receive / Writer.receive are FIFO by construction); the oracle and theorem C19.frame_pairs take it as the hypothesis",
 		"transparency is a differential over deterministic hand-over schedules: after every step the harness waits for exactly the events its reference reading of the workflow predicts (actions entered in gated nodes, sink arrivals, source responses) before the next step, the same on both runs; goroutine interleavings inside one step are the Go scheduler's. ManyToOne workflows keep one request in flight per source (a queued unpaired packet behind unanswered ones is C02's subject)",
 		"frames recorded for a process that was terminated with requests in flight (the exit hook deletes frames[proc], later drop answers re-create it) are reported in the evidence as an observation, not judged: C19 speaks about pairing, C05 about what outlives a process",
@@ -91,6 +92,20 @@ func Run(c *lib.Ctx) {
 			ops = ops[:len(ops)/2+1]
 		}
 		c.Count(slow(c, "frames", func() string { return framesCase(c, fs, nsess, ops, early, sc, &fails) }))
+	}
+
+	// (2b) fan-in: two writers of one process racing into one in-port
+	if !only {
+		for i := 0; i < c.Scale(6, 40); i++ {
+			r := rng.Fork()
+			sc.Begin()
+			c.Count(slow(c, "fan-in park", func() string { return fanInCase(c, r, "park", i%2 == 1, r.Range(2, 3), sc, &fails) }))
+		}
+		for i := 0; i < c.Scale(4, 40); i++ {
+			r := rng.Fork()
+			sc.Begin()
+			c.Count(slow(c, "fan-in race", func() string { return fanInCase(c, r, "race", i%2 == 1, c.Scale(25, 60), sc, &fails) }))
+		}
 	}
 
 	// (1) transparency differential
